@@ -717,14 +717,23 @@ func (w *messageWriter) ReadFrom(r io.Reader) (nn int64, err error) {
 		return 0, w.err
 	}
 	for {
-		if w.pos == len(w.c.writeBuf) {
-			err = w.flushFrame(false, nil)
-			if err != nil {
-				break
-			}
-		}
 		var n int
-		n, err = r.Read(w.c.writeBuf[w.pos:])
+		if w.pos == len(w.c.writeBuf) {
+			// The buffer is full. Flush it only when the source has more
+			// data: the message may end exactly here, and a control message
+			// that fills the buffer must not be refused as fragmented.
+			var next [1]byte
+			n, err = r.Read(next[:])
+			if n > 0 {
+				if ferr := w.flushFrame(false, nil); ferr != nil {
+					err = ferr
+					break
+				}
+				w.c.writeBuf[w.pos] = next[0]
+			}
+		} else {
+			n, err = r.Read(w.c.writeBuf[w.pos:])
+		}
 		w.pos += n
 		nn += int64(n)
 		if err != nil {
